@@ -138,6 +138,7 @@ def run(ctx):
     ctx.explore("structure", dm.structure_sweep(n, d), check_doc, chunk=10)
     ctx.explore("alias_rich", alias_rich_docs(), check_doc, chunk=2)
     ctx.explore("decoration", dm.decoration_sweep()[:: (3 if ctx.quick else 1)], check_doc, chunk=20)
+    ctx.explore("targets", dm.target_docs(), check_doc, chunk=1)
     ctx.explore("comments", dm.comment_sweep(1 if ctx.quick else 2), check_doc, chunk=10)
     ctx.explore("write_lenient", dm.value_sweep(dm.SIMPLE_POOL) + alias_rich_docs()[:: (5 if ctx.quick else 1)], check_write, chunk=10)
     if _T.get("dir"):
